@@ -26,6 +26,15 @@ Deciding monitor M (boundary oracle = the packing model):
   format knows LF only, so the character is ordinary content: ``debcontrol()``
   must give the packed value back verbatim and ``control.get_content('control')``
   must give the packed bytes / the packed text (``encoding='utf-8'``).
+* second use (``reuse`` class): ``debcontrol()``, ``scripts()``, ``md5sums()`` are called again - through
+  ``deb.X()`` and through ``deb.control.X()`` - on the same DebFile, interleaved with the data-part reads; the
+  harness, playing the caller, changes the objects it got back (sets / deletes / adds fields of the Deb822, adds /
+  deletes / replaces keys of the dicts, ``clear()``) before calling again.  Every call is compared with the packing
+  description, whatever happened to earlier results.
+* file names at the edge of the name domain (``edge`` class): '..' as a SUBSTRING of a component ('a..b',
+  'notes...', 'etc../x', 'a/..b'), leading-dot components ('...', '..a'), blanks - as data files AND as extra
+  members of the control part; has_file / in / get_content / get_file / [] under the three spellings, iteration,
+  and never-packed neighbours of such names ('a.b' next to 'a..b').
 """
 import bz2
 import gzip
@@ -61,7 +70,22 @@ RULE = ('Packages are generated from a seeded description (control fields incl. 
         'control.get_content as bytes and as utf-8 text == packed control file; the text form is asked of every '
         'package under the three spellings).  A further ~4% carry the character in a TIGHT placement (next '
         'character not a blank); for those the unchanged tree raises ValueError from debcontrol() and that outcome is '
-        'tolerated and counted (brk:tight:*), any value that IS returned must still be the packed one.')
+        'tolerated and counted (brk:tight:*), any value that IS returned must still be the packed one.  '
+        'Second-use class (counters reuse:*, monitors M.reuse, M.reuse.after-mutation, M.held): ~65% of the packages '
+        'carry 1..5 further debcontrol() / scripts() / md5sums(bytes|text) calls, each through deb.X() or '
+        'deb.control.X(), shuffled among all other queries (so data-part reads lie between them); ~60% of those calls '
+        'are followed by 1..3 caller-side changes of the returned object (set / delete / add a field or key, clear()); '
+        'after the shuffled part every such family is called once more through BOTH routes.  Every call - 1st, 2nd, '
+        'n-th, before or after a caller-side change - must equal the packing description; results the caller kept '
+        'unchanged are compared once more at the end.  Name-edge class (counters edge:*, monitors M.edge.data, '
+        'M.edge.control, M.iter): a fixed list of ~50 names (EDGE) with ".." as a substring of a component (a..b, notes..., '
+        'etc../x, a/..b, a../..b, "changes 1.0..1.1"), leading-dot components (..., ..a, .hidden) and blanks is cycled '
+        'through the packages (every name in every shard) and drawn at random, as data files and as extra members of '
+        'the CONTROL part; control-part members are queried like data files (has_file / in / get_content / get_file / '
+        '[] under name, ./name, /name); both parts are iterated (every packed file must be listed, nothing that was '
+        'not packed may be listed, a listed file name must be found and readable under exactly the listed spelling); '
+        'never-packed neighbours of the edge names (".." collapsed, dots stripped / added, blanks removed) must be '
+        'reported absent under the three spellings.')
 ASSUMPTIONS = [
     'vp.models.arwriter writes a well-formed ar archive (checked against `ar t` / dpkg-deb in the thorough tier when installed)',
     'stdlib tarfile/gzip/bz2/lzma produce valid tarballs; tar members are written with the ./ prefix (dpkg convention, the form the reader documents)',
@@ -73,6 +97,12 @@ ASSUMPTIONS = [
     'control.get_content(name, encoding="utf-8") is compared with the utf-8 decoding of the packed control file; valid because no CR is generated in control files (text mode translates CR/CRLF)',
     'non-ASCII file names are generated only when tarfile.ENCODING and the filesystem encoding are utf-8',
     'domain excludes truncated/corrupt ar or tar bytes: "structurally defective" = the member-name set only',
+    'an object returned by debcontrol()/scripts()/md5sums() belongs to the caller: the harness changes it only through its public mapping interface (item assignment with a plain one-line value, del, clear()) and never demands anything of the changed object itself; what is demanded is that EVERY call reports the packed content.  Whether two calls return the same or distinct objects is counted (reuse:*:same-object-as-earlier / fresh-object), never judged on its own',
+    'a result the caller kept WITHOUT changing it must still equal the packed content at the end of the case (a correct reader has no reason to touch an object it handed out); a kept result that the caller DID change is never looked at again',
+    'for a tight line-boundary placement where debcontrol() raises ValueError there is no returned object: nothing is changed, nothing is kept, the call still counts as a call',
+    'edge names stay inside the name domain of the statement: no empty, "." or ".." COMPONENT, no leading "/" or "./", first character not a blank, only LF-free printable ASCII; ".." occurs only as part of a longer component',
+    'iteration (__iter__) is judged modulo the three documented spellings and modulo directory / symlink / root entries: each packed regular file must be listed at least once, every listed name must be a packed file, directory, symlink or the root; the spelling that is listed must be accepted by has_file/get_content of the same part.  Order and multiplicity are not judged',
+    'control-part extra members with sub-directories (etc..d/x) are written without directory entries; maintainer scripts / md5sums / control keep their standard names',
 ]
 ANCHORS = ['debian.debfile:DebFile.__init__',
            'debian.debfile:DebPart.tgz',
@@ -275,7 +305,8 @@ def build_pkg(case):
     raw = arwriter.build_ar(members, style=ar.get('style', 'bare'))
     model = {'fields': [tuple(f) for f in case['fields']], 'control_raw': ctl, 'md5_raw': md5,
              'scripts': dict(scripts), 'files': files, 'dirs': dirs, 'links': [l[0] for l in links],
-             'md5': dict((n, hashlib.md5(d).hexdigest()) for n, d in files)}
+             'md5': dict((n, hashlib.md5(d).hexdigest()) for n, d in files),
+             'cfiles': [(n, d) for n, d in cmembers]}
     return raw, model
 
 
@@ -331,6 +362,116 @@ def conflicts(n, names):
         if m == n or m.startswith(n + '/') or n.startswith(m + '/'):
             return True
     return False
+
+
+# --- names at the edge of the name domain: '..' inside a component, leading dots, blanks
+EDGE = ['a..b', 'notes...', 'etc..d/x', 'changes 1.0..1.1', 'etc../x', 'a/..b', 'a../..b', '.../x', 'x/.../y', '..a',
+        '..a/..b', 'v1..v2.diff', 'usr/share/doc/p q/changes 1.0..1.1', 'a..', '....', 'a/....', 'dir../file..',
+        'range 1..10/item 2..3', 'q/.. /b', '.. x', '. /x', 'a/ ..', 'a/ ../b', '..  ', 'etc/..d', 'etc/d..',
+        'etc/d../x y', '..../....', 'notes... (old)', 'a .. b', 'x y ..z', '..hidden', '.. /..  x',
+        '.hidden', '...', '.a/.b', '.hidden file', '.config/x y', '.a.', '. .', '.x y', '.x', '.a/..b/...c',
+        'x y', 'a  b', 'trail ', 'my file.txt', 'dir name/file name', 'a b/ c', 'a . b', 'READ ME..', 'x ./y']
+
+
+def name_classes(n):
+    """edge classes of a root-relative name (workload bookkeeping and witness messages)"""
+    comps = n.split('/')
+    out = []
+    if '..' in n:
+        out.append('dotdot-substring')
+        if '../' in n:
+            out.append('dotdot-before-slash')
+        if '/..' in n:
+            out.append('dotdot-after-slash')
+        if n.startswith('..'):
+            out.append('dotdot-first')
+        if n.endswith('..'):
+            out.append('dotdot-last')
+    if any(c.startswith('.') for c in comps):
+        out.append('leading-dot')
+    if any(c.endswith('.') for c in comps):
+        out.append('trailing-dot')
+    if ' ' in n:
+        out.append('space')
+    return out
+
+
+def edge_neighbours(n):
+    """never-packed look-alikes of an edge name (filtered by the caller: valid, not packed, not a parent)"""
+    out = []
+    for c in (n.replace('..', '.'), n.replace('..', ''), n.replace('...', '..'), n.replace('..', '...'),
+              n.replace('..', '. .'), n.rstrip('.'), n + '.', n + '..', '.' + n, '..' + n, n.lstrip('.'),
+              n.replace('../', '/'), n.replace('/..', '/'), n.replace('../', '..'), n.replace(' ', ''),
+              n.replace(' ', '.'), n.strip(), n.replace('/.', '/'), n.replace('./', '/')):
+        if c and c != n and c not in out:
+            out.append(c)
+    return out
+
+
+def add_edge_names(r, j, case):
+    """name-edge class: EDGE names as data files and as extra members of the control part (in place)"""
+    names = [n for n, _ in case['files']] + [l[0] for l in case['links']]
+    picks = []
+    if j % 3 == 1:
+        picks.append(EDGE[(j // 3) % len(EDGE)])
+    n_extra = r.randint(1, 3)
+    if r.random() < 0.35:
+        picks.extend(r.choice(EDGE) for _ in range(n_extra))
+    for n in picks:
+        if len(case['files']) < 10 and not conflicts(n, names):
+            names.append(n)
+            case['files'].append([n, gen_content(r, big_ok=False)])
+            order = case['md5'].setdefault('order', list(range(len(case['files']) - 1)))
+            order.insert(r.randrange(len(order) + 1), len(case['files']) - 1)
+    cnames = ['control', 'md5sums'] + SCRIPTS + [n for n, _ in case['extra']]
+    cpicks = []
+    if j % 3 == 2:
+        cpicks.append(EDGE[(j // 3 + 7) % len(EDGE)])
+    n_extra = r.randint(1, 2)
+    if r.random() < 0.3:
+        cpicks.extend(r.choice(EDGE) for _ in range(n_extra))
+    for n in cpicks:
+        if not conflicts(n, cnames):
+            cnames.append(n)
+            case['extra'].append([n, gen_content(r, big_ok=False)])
+    if case.get('tarfmt') == 'ustar' and any(len(n.encode('utf-8')) > 90 for n in names + cnames):
+        case['tarfmt'] = 'gnu'
+
+
+# --- second use: further calls of debcontrol / scripts / md5sums and what the caller does to the results
+REUSE_FIELDS = ['X-Added-By-Caller', 'Version', 'Installed-Size', 'Description', 'x-lower', 'Depends']
+REUSE_KEYS = ['usr/bin/added by caller', 'a..b', '.hidden', 'x y']
+
+
+def gen_reuse(r, case):
+    """-> [[family, route, md5 encoding or None, [caller-side changes]], ...]"""
+    if r.random() < 0.35:
+        return []
+    out = []
+    for _ in range(r.randint(1, 5)):
+        fam = r.choice(['control', 'control', 'scripts', 'md5', 'md5'])
+        route = r.choice(['deb', 'part'])
+        enc = r.choice([None, 'utf-8']) if fam == 'md5' else None
+        muts = []
+        if r.random() < 0.6:
+            for _ in range(r.randint(1, 3)):
+                k = r.random()
+                if fam == 'control':
+                    name, val = r.choice(REUSE_FIELDS), 'changed by caller %d' % r.randrange(100)
+                elif fam == 'scripts':
+                    name, val = r.choice(SCRIPTS + ['extra']), '#!/bin/sh\n# changed by caller %d\n' % r.randrange(100)
+                else:
+                    name, val = r.choice(REUSE_KEYS), '%032x' % r.getrandbits(128)
+                if k < 0.35:
+                    muts.append(['set', r.randrange(64), val])
+                elif k < 0.6:
+                    muts.append(['del', r.randrange(64)])
+                elif k < 0.9:
+                    muts.append(['add', name, val])
+                else:
+                    muts.append(['clear'])
+        out.append([fam, route, enc, muts])
+    return out
 
 
 def gen_content(r, big_ok=True):
@@ -612,6 +753,9 @@ def gen_pkg(r, j, cc, dc):
         inject_brk(r, case['fields'], prefer_last=not case['ctl_final_nl'])
     elif k < 0.22:
         inject_brk(r, case['fields'], tight=True, prefer_last=not case['ctl_final_nl'])
+    # name-edge class and second-use class (drawn after everything else, for the same reason)
+    add_edge_names(r, j, case)
+    case['reuse'] = gen_reuse(r, case)
     return case
 
 
@@ -830,7 +974,72 @@ def check_pkg(ctx, case, stats):
     if brk:
         count('brk:pkg:' + brk)
     control_text_want = model['control_raw'].decode('utf-8')
-    ops = [('control',), ('scripts',), ('md5', None), ('md5', 'utf-8')]
+    ops = [('control', 'deb', None), ('scripts', 'deb', None), ('md5', None, 'deb', None), ('md5', 'utf-8', 'deb', None)]
+    # second use: further calls (either route) and the caller-side changes that follow them
+    reuse = case.get('reuse') or []
+    tail = []
+    for fam, route, enc, muts in reuse:
+        if fam == 'md5':
+            ops.append(('md5', enc, route, muts))
+            last = [('md5', enc, 'deb', None), ('md5', enc, 'part', None)]
+        else:
+            ops.append((fam, route, muts))
+            last = [(fam, 'deb', None), (fam, 'part', None)]
+        for t in last:
+            if t not in tail:
+                tail.append(t)
+    calls = {}          # family -> number of calls made so far
+    changed = set()     # families of which the caller changed a returned object
+    held = []           # (family, object, call number): results the caller kept and did not change
+    earlier = {}        # family -> objects returned so far (identity bookkeeping only)
+    touched = []        # objects the caller changed (a reader that hands the same object out again aliases them)
+
+    def second_use(fam, route, obj, muts):
+        """bookkeeping after a judged call; applies the caller-side changes"""
+        n = calls.get(fam, 0) + 1
+        calls[fam] = n
+        if n > 1:
+            mon('M.reuse')
+            count('reuse:%s:call-%s' % (fam.split(':')[0], '2' if n == 2 else '3+'))
+            count('reuse:route:' + route)
+            if fam in changed:
+                mon('M.reuse.after-mutation')
+                count('reuse:%s:after-caller-change' % fam.split(':')[0])
+            if obj is not None:
+                same = any(obj is e for e in earlier.get(fam, []))
+                count('reuse:%s:%s' % (fam.split(':')[0], 'same-object-as-earlier' if same else 'fresh-object'))
+        if obj is None:
+            return
+        earlier.setdefault(fam, []).append(obj)
+        if not muts:
+            if reuse and not any(obj is h[1] for h in held) and not any(obj is t for t in touched):
+                held.append((fam, obj, n))
+            return
+        for m in muts:
+            keys = list(obj.keys())
+            count('reuse:mut:' + m[0])
+            if m[0] == 'clear':
+                obj.clear()
+            elif m[0] == 'add' or not keys:
+                name, val = (m[1], m[2]) if m[0] == 'add' else ('added-instead', 'v')
+                if fam == 'md5:None':
+                    name = name.encode('utf-8')
+                obj[name] = val.encode('latin-1') if fam == 'scripts' else val
+            elif m[0] == 'set':
+                obj[keys[m[1] % len(keys)]] = m[2].encode('latin-1') if fam == 'scripts' else m[2]
+            elif m[0] == 'del':
+                del obj[keys[m[1] % len(keys)]]
+        changed.add(fam)
+        touched.append(obj)
+        held[:] = [h for h in held if h[1] is not obj]
+
+    def use_sfx(fam):
+        if fam in changed:
+            return '/after-caller-changed-earlier-result'
+        return '/repeated-call' if calls.get(fam) else ''
+
+    cfiles = [(n, d) for n, d in model['cfiles'] if n != 'control']
+    cedge = [i for i, (n, _) in enumerate(cfiles) if n not in SCRIPTS and n != 'md5sums' and name_classes(n)]
     for sp in spellings('control'):
         ops.append(('ctlraw', sp))
         ops.append(('ctltext', sp))
@@ -841,6 +1050,34 @@ def check_pkg(ctx, case, stats):
     rr = random.Random(case.get('opseed', 0))
     present = set(n for n, _ in files) | set(model['dirs']) | set(model['links'])
     absent = []
+    others = [i for i in range(len(cfiles)) if i not in cedge]
+    rr.shuffle(others)
+    for i in cedge + others[:2]:
+        for sp in spellings(cfiles[i][0]):
+            ops.append(('chas', i, sp))
+            ops.append(('ccontent', i, sp))
+    ops.append(('iter', 'data'))
+    ops.append(('iter', 'control'))
+    cpresent = set(n for n, _ in model['cfiles'])
+    cabsent = []
+    for i in cedge:
+        for cand in edge_neighbours(cfiles[i][0]):
+            if cand not in cpresent and cand not in cabsent and valid_name(cand) \
+                    and not any(p.startswith(cand + '/') for p in cpresent):
+                cabsent.append(cand)
+    rr.shuffle(cabsent)
+    for cand in cabsent[:3]:
+        ops.append(('absent', cand, 'control'))
+    eabsent = []
+    for n, _ in files:
+        if '..' in n or n.startswith('.'):
+            for cand in edge_neighbours(n):
+                if cand not in present and cand not in eabsent and valid_name(cand) \
+                        and not any(p.startswith(cand + '/') for p in present):
+                    eabsent.append(cand)
+    rr.shuffle(eabsent)
+    for cand in eabsent[:4]:
+        ops.append(('absent', cand, 'data'))
     for n, _ in files:
         for cand in (n + '~', n[:-1], 'x' + n, n.swapcase(), n.lstrip('.'), '.' + n, n.split('/')[-1], n + '/x',
                      n.replace(' ', ''), n.replace(' ', '  ', 1)):
@@ -850,11 +1087,12 @@ def check_pkg(ctx, case, stats):
     if not files:
         absent = ['nope', '.hidden', 'usr/bin/x y']
     rr.shuffle(absent)
-    for cand in absent[:6]:
-        ops.append(('absent', cand))
+    for cand in [c for c in absent if c not in eabsent[:4]][:6]:
+        ops.append(('absent', cand, 'data'))
     for d in model['dirs'][:4] + model['links']:
         ops.append(('other', d))
     rr.shuffle(ops)
+    ops.extend(tail)        # after the shuffled part: every re-used family once more through both routes
 
     for op in ops:
         kind = op[0]
@@ -867,44 +1105,63 @@ def check_pkg(ctx, case, stats):
                     continue
                 if brk:
                     mon('M.brk.fields')
+                route, muts = op[1], op[2]
+                usfx = use_sfx('control')
+                call = 'deb.debcontrol()' if route == 'deb' else 'deb.control.debcontrol()'
                 try:
-                    got = deb.debcontrol()
+                    got = deb.debcontrol() if route == 'deb' else deb.control.debcontrol()
                 except ValueError:
                     if brk != 'tight':
                         raise
                     # the unchanged tree's own validator (str.splitlines() in Deb822.validate_input) refuses the
                     # value while the paragraph is being built: tolerated for tight placements, never demanded
                     count('brk:tight:debcontrol-raised-ValueError')
+                    second_use('control', route, None, None)
                     continue
                 if brk == 'tight':
                     count('brk:tight:debcontrol-returned')
                 pairs = [(k, got[k]) for k in got.keys()]
                 if pairs != model['fields']:
                     diff = [(a, b) for a, b in zip(pairs, model['fields']) if a != b][:2]
-                    out.add('debcontrol-differs-from-packed-fields' + sfx,
-                            'debcontrol() gave %d fields, packed %d; first differences (got, packed): %r; got keys %r'
-                            % (len(pairs), len(model['fields']), diff, list(got.keys())))
+                    out.add('debcontrol-differs-from-packed-fields' + sfx + usfx,
+                            '%s (call %d on this DebFile%s) gave %d fields, packed %d; first differences (got, packed): '
+                            '%r; got keys %r' % (call, calls.get('control', 0) + 1,
+                                                 ', caller changed an earlier result' if 'control' in changed else '',
+                                                 len(pairs), len(model['fields']), diff, list(got.keys())))
                 elif brk:
                     count('brk:fields-verbatim')
+                second_use('control', route, got, muts)
             elif kind == 'scripts':
                 mon('M.query')
-                got = deb.scripts()
+                route, muts = op[1], op[2]
+                usfx = use_sfx('scripts')
+                got = deb.scripts() if route == 'deb' else deb.control.scripts()
                 if got != model['scripts']:
-                    out.add('scripts-differ-from-packed',
-                            'scripts() keys %r, packed %r; differing: %r' % (
+                    out.add('scripts-differ-from-packed' + usfx,
+                            '%s (call %d on this DebFile%s) keys %r, packed %r; differing: %r' % (
+                                'deb.scripts()' if route == 'deb' else 'deb.control.scripts()', calls.get('scripts', 0) + 1,
+                                ', caller changed an earlier result' if 'scripts' in changed else '',
                                 sorted(got), sorted(model['scripts']),
                                 [(k, brief(got.get(k)), brief(model['scripts'].get(k)))
                                  for k in sorted(set(got) | set(model['scripts'])) if got.get(k) != model['scripts'].get(k)][:2]))
+                second_use('scripts', route, got, muts)
             elif kind == 'md5':
                 mon('M.query')
-                enc = op[1]
-                got = deb.md5sums(encoding=enc) if enc else deb.md5sums()
+                enc, route, muts = op[1], op[2], op[3]
+                fam = 'md5:%s' % enc
+                usfx = use_sfx(fam)
+                part = deb if route == 'deb' else deb.control
+                got = part.md5sums(encoding=enc) if enc else part.md5sums()
                 want = dict(((k.encode('utf-8') if enc is None else k), v) for k, v in model['md5'].items())
                 if got != want:
-                    out.add('md5sums-differ-from-packed',
-                            'md5sums(encoding=%r): missing %r, unexpected %r, wrong sums for %r' % (
-                                enc, sorted(set(want) - set(got))[:3], sorted(set(got) - set(want))[:3],
+                    out.add('md5sums-differ-from-packed' + usfx,
+                            '%s.md5sums(encoding=%r) (call %d with this encoding on this DebFile%s): missing %r, '
+                            'unexpected %r, wrong sums for %r' % (
+                                'deb' if route == 'deb' else 'deb.control', enc, calls.get(fam, 0) + 1,
+                                ', caller changed an earlier result' if fam in changed else '',
+                                sorted(set(want) - set(got))[:3], sorted(set(got) - set(want))[:3],
                                 [k for k in want if k in got and got[k] != want[k]][:3]))
+                second_use(fam, route, got, muts)
             elif kind == 'ctlraw':
                 mon('M.query')
                 spk, sp = op[1]
@@ -937,8 +1194,10 @@ def check_pkg(ctx, case, stats):
             elif kind == 'has':
                 mon('M.query')
                 spk, sp = op[2]
+                if name_classes(files[op[1]][0]):
+                    mon('M.edge.data')
                 got = deb.data.has_file(sp)
-                via = deb.data.__contains__(sp)
+                via = sp in deb.data
                 if got is not True or via is not True:
                     out.add('packed-file-not-found/%s-spelling' % spk,
                             'data.has_file(%r) -> %r, (%r in data) -> %r; packed as ./%s' % (sp, got, sp, via, files[op[1]][0]))
@@ -946,6 +1205,8 @@ def check_pkg(ctx, case, stats):
                 mon('M.query')
                 spk, sp = op[2]
                 want = files[op[1]][1]
+                if name_classes(files[op[1]][0]):
+                    mon('M.edge.data')
                 how = rr.randrange(3)
                 if how == 0:
                     got = deb.data.get_content(sp)
@@ -962,12 +1223,91 @@ def check_pkg(ctx, case, stats):
             elif kind == 'absent':
                 mon('M.query')
                 name = op[1]
-                res = [(spk, outcome(lambda sp=sp: deb.data.has_file(sp))) for spk, sp in spellings(name)]
+                part = deb.control if op[2] == 'control' else deb.data
+                psfx = '/control-part' if op[2] == 'control' else ''
+                count('absent:' + op[2])
+                res = [(spk, outcome(lambda sp=sp: part.has_file(sp))) for spk, sp in spellings(name)]
                 if any(o != ('ok', False) for _, o in res):
-                    out.add('never-packed-name-reported-present', 'has_file over spellings of absent %r -> %r' % (name, res))
-                res = [(spk, outcome(lambda sp=sp: deb.data.get_content(sp))) for spk, sp in spellings(name)]
+                    out.add('never-packed-name-reported-present' + psfx,
+                            '%s.has_file over spellings of absent %r -> %r' % (op[2], name, res))
+                res = [(spk, outcome(lambda sp=sp: sp in part)) for spk, sp in spellings(name)]
+                if any(o != ('ok', False) for _, o in res):
+                    out.add('never-packed-name-reported-present' + psfx,
+                            '(name in %s) over spellings of absent %r -> %r' % (op[2], name, res))
+                res = [(spk, outcome(lambda sp=sp: part.get_content(sp))) for spk, sp in spellings(name)]
                 if len(set(o for _, o in res)) != 1:
-                    out.add('spellings-answered-differently', 'get_content over spellings of absent %r -> %r' % (name, res))
+                    out.add('spellings-answered-differently' + psfx,
+                            '%s.get_content over spellings of absent %r -> %r' % (op[2], name, res))
+            elif kind == 'chas':
+                mon('M.query')
+                spk, sp = op[2]
+                name = cfiles[op[1]][0]
+                if name_classes(name):
+                    mon('M.edge.control')
+                got = deb.control.has_file(sp)
+                via = sp in deb.control
+                if got is not True or via is not True:
+                    out.add('control-member-not-found/%s-spelling' % spk,
+                            'control.has_file(%r) -> %r, (%r in control) -> %r; packed as ./%s' % (sp, got, sp, via, name))
+            elif kind == 'ccontent':
+                mon('M.query')
+                spk, sp = op[2]
+                name, want = cfiles[op[1]]
+                if name_classes(name):
+                    mon('M.edge.control')
+                how = rr.randrange(3)
+                if how == 0:
+                    got = deb.control.get_content(sp)
+                elif how == 1:
+                    f = deb.control.get_file(sp)
+                    got = f.read()
+                    f.close()
+                else:
+                    got = deb.control[sp]
+                if got != want:
+                    out.add('control-member-content-differs/%s-spelling' % spk,
+                            'control content of %r (via %s) -> %s, packed %s' % (
+                                sp, ['get_content', 'get_file().read()', '__getitem__'][how], brief(got), brief(want)))
+            elif kind == 'iter':
+                mon('M.query')
+                mon('M.iter')
+                which = op[1]
+                part = deb.control if which == 'control' else deb.data
+                packed = dict(model['cfiles']) if which == 'control' else dict(files)
+                nonfiles = set() if which == 'control' else set(model['dirs']) | set(model['links'])
+                listed = list(iter(part))
+                by_norm = {}
+                for x in listed:
+                    nx = x[2:] if x.startswith('./') else x[1:] if x.startswith('/') else x
+                    if nx.endswith('/') and nx[:-1] in nonfiles:
+                        nx = nx[:-1]
+                    by_norm.setdefault(nx, x)
+                missing = [n for n in packed if n not in by_norm]
+                if missing:
+                    out.add('packed-file-not-listed-by-iteration/%s-part' % which,
+                            'iter(deb.%s) lists %r; packed files missing from it: %r' % (which, listed[:20], missing[:3]))
+                phantom = [x for nx, x in by_norm.items() if nx not in packed and nx not in nonfiles and nx not in ('', '.')]
+                if phantom:
+                    out.add('never-packed-name-listed-by-iteration/%s-part' % which,
+                            'iter(deb.%s) lists %r which were never packed (packed: %r)' % (which, phantom[:3], sorted(packed)[:20]))
+                # a listed file must be found and readable under exactly the spelling that was listed
+                cands = [n for n in packed if n in by_norm]
+                rr.shuffle(cands)
+                cands.sort(key=lambda n: not name_classes(n))
+                for n in cands[:3]:
+                    x = by_norm[n]
+                    count('iter:fed-back')
+                    if name_classes(n):
+                        mon('M.edge.' + which)
+                    if part.has_file(x) is not True or (x in part) is not True:
+                        out.add('listed-name-not-found/%s-part' % which,
+                                'iter(deb.%s) lists %r but has_file(%r) -> %r' % (which, x, x, part.has_file(x)))
+                    else:
+                        got = part.get_content(x)
+                        if got != packed[n]:
+                            out.add('listed-name-content-differs/%s-part' % which,
+                                    '%s.get_content(%r) (spelling as listed by iteration) -> %s, packed %s'
+                                    % (which, x, brief(got), brief(packed[n])))
             elif kind == 'other':
                 # directories / symlinks: the statement only demands identical answers for the three spellings
                 mon('M.query')
@@ -980,9 +1320,32 @@ def check_pkg(ctx, case, stats):
                     out.add('spellings-answered-differently', 'get_content over spellings of non-file %r -> %r' % (name, res))
         except Exception as e:
             what = {'control': 'debcontrol', 'scripts': 'scripts', 'md5': 'md5sums', 'ctlraw': 'control-query',
-                    'ctltext': 'control-text-query', 'has': 'data-has_file', 'content': 'data-content-query'}.get(kind, kind)
-            out.add('%s-raises/%s%s' % (what, type(e).__name__, sfx if kind in ('control', 'ctlraw', 'ctltext') else ''),
+                    'ctltext': 'control-text-query', 'has': 'data-has_file', 'content': 'data-content-query',
+                    'chas': 'control-has_file', 'ccontent': 'control-member-query', 'iter': 'iteration'}.get(kind, kind)
+            usfx = ''
+            if kind in ('control', 'scripts', 'md5'):
+                fam = kind if kind != 'md5' else 'md5:%s' % op[1]
+                usfx = use_sfx(fam)
+                calls[fam] = calls.get(fam, 0) + 1
+            out.add('%s-raises/%s%s%s' % (what, type(e).__name__, sfx if kind in ('control', 'ctlraw', 'ctltext') else '', usfx),
                     '%r raised %r' % (op, e))
+    # results the caller kept without changing them: still the packed content?
+    for fam, obj, n in held:
+        mon('M.held')
+        try:
+            if fam == 'control':
+                ok = [(k, obj[k]) for k in obj.keys()] == model['fields']
+            elif fam == 'scripts':
+                ok = obj == model['scripts']
+            else:
+                enc = fam.split(':', 1)[1]
+                ok = obj == dict(((k.encode('utf-8') if enc == 'None' else k), v) for k, v in model['md5'].items())
+        except Exception as e:      # noqa
+            ok = False
+        if not ok:
+            out.add('earlier-result-changed-by-later-calls/%s' % fam.split(':')[0],
+                    'the object returned by call %d of %s, not touched by the caller, no longer equals the packed content '
+                    'at the end of the case (%d calls in all): %s' % (n, fam, calls.get(fam, 0), repr(obj)[:300]))
     try:
         deb.close()
     except Exception as e:
@@ -1095,6 +1458,21 @@ def _shrink_candidates(case):
         yield variant(links=[])
     if case.get('extra'):
         yield variant(extra=[])
+        if len(case['extra']) > 1:
+            for e in case['extra']:
+                yield variant(extra=[e])
+    reuse = case.get('reuse') or []
+    if reuse:
+        yield variant(reuse=[])
+        if len(reuse) > 1:
+            for i in range(len(reuse)):
+                yield variant(reuse=[reuse[i]])
+            for i in range(len(reuse)):
+                yield variant(reuse=reuse[:i] + reuse[i + 1:])
+        for i, (fam, route, enc, muts) in enumerate(reuse):
+            if len(muts) > 1:
+                for m in muts:
+                    yield variant(reuse=reuse[:i] + [[fam, route, enc, [m]]] + reuse[i + 1:])
     if case.get('scripts'):
         yield variant(scripts=[])
         for s in case['scripts']:
@@ -1212,7 +1590,25 @@ def run_case(ctx, case):
                 ctx.count('name:longer-than-100')
             if not n.isascii():
                 ctx.count('name:non-ascii')
-        ctx.count('files=%d' % len(case['files']))
+        for part, names in (('data', [n for n, _ in case['files']]),
+                            ('control', [n for n, _ in case.get('extra', [])])):
+            for n in names:
+                for cls in name_classes(n):
+                    if cls != 'trailing-dot' or part == 'control':
+                        ctx.count('edge:%s:%s' % (part, cls))
+                if n in EDGE:
+                    ctx.count('edge:%s:listed-name' % part)
+        reuse = case.get('reuse') or []
+        if reuse:
+            ctx.count('reuse:pkg')
+            if any(m for _, _, _, m in reuse):
+                ctx.count('reuse:pkg:with-caller-change')
+            for fam, route, enc, muts in reuse:
+                ctx.count('reuse:planned:%s' % fam)
+                ctx.count('reuse:planned-route:%s' % route)
+                if muts:
+                    ctx.count('reuse:planned-change:%s' % fam)
+        ctx.count('files=%d' % min(len(case['files']), 8))
         ctx.count('scripts=%d' % len(case['scripts']))
         scan = brk_scan(case['fields'])
         if scan:
